@@ -147,6 +147,82 @@ class _AppendLoopToComprehension(ast.NodeTransformer):
         return node
 
 
+class _InlineConditionTemp(ast.NodeTransformer):
+    """`c = E` immediately followed by `if c:` / `if not c:`, where the function stores `c` once and reads it once (that test)
+    ->  `if E:` / `if not E:`. The test is the first thing an `if` evaluates, so the two spellings run the same operations in the
+    same order; rules that read a guard see the expression whichever spelling the code uses."""
+
+    def __init__(self):
+        self.single = [set()]
+
+    def visit_FunctionDef(self, node):
+        stores, loads = {}, {}
+        declared = set()
+        for x in ast.walk(node):
+            if isinstance(x, (ast.Global, ast.Nonlocal)):
+                declared.update(x.names)
+            elif isinstance(x, ast.Name):
+                d = loads if isinstance(x.ctx, ast.Load) else stores
+                d[x.id] = d.get(x.id, 0) + 1
+        params = {a.arg for a in node.args.posonlyargs + node.args.args + node.args.kwonlyargs}
+        self.single.append({n for n, k in stores.items() if k == 1 and loads.get(n, 0) == 1 and n not in declared and n not in params})
+        self.generic_visit(node)
+        self.single.pop()
+        return node
+
+    visit_AsyncFunctionDef = visit_FunctionDef
+
+    def _block(self, stmts):
+        out = []
+        i = 0
+        while i < len(stmts):
+            a = stmts[i]
+            b = stmts[i + 1] if i + 1 < len(stmts) else None
+            if (len(self.single) > 1 and isinstance(a, ast.Assign) and len(a.targets) == 1 and isinstance(a.targets[0], ast.Name)
+                    and a.targets[0].id in self.single[-1] and isinstance(b, ast.If)):
+                name = a.targets[0].id
+                t = b.test
+                if isinstance(t, ast.Name) and t.id == name:
+                    b.test = a.value
+                elif isinstance(t, ast.UnaryOp) and isinstance(t.op, ast.Not) and isinstance(t.operand, ast.Name) and t.operand.id == name:
+                    t.operand = a.value
+                else:
+                    out.append(a)
+                    i += 1
+                    continue
+                b.lineno, b.col_offset = a.lineno, a.col_offset
+                out.append(b)
+                i += 2
+                continue
+            out.append(a)
+            i += 1
+        return out
+
+    def generic_visit(self, node):
+        super().generic_visit(node)
+        for fld in ("body", "orelse", "finalbody"):
+            v = getattr(node, fld, None)
+            if isinstance(v, list) and v and isinstance(v[0], ast.stmt):
+                setattr(node, fld, self._block(v))
+        if hasattr(node, "handlers"):
+            for h in node.handlers:
+                h.body = self._block(h.body)
+        return node
+
+
+class _NegatedOperators(ast.NodeTransformer):
+    """`not (a is b)` -> `a is not b`, `not (a in b)` -> `a not in b` (single comparisons): one spelling for the negated operators"""
+
+    def visit_UnaryOp(self, node):
+        self.generic_visit(node)
+        c = node.operand
+        if isinstance(node.op, ast.Not) and isinstance(c, ast.Compare) and len(c.ops) == 1 and isinstance(c.ops[0], (ast.Is, ast.In)):
+            new = ast.Compare(left=c.left, ops=[ast.IsNot() if isinstance(c.ops[0], ast.Is) else ast.NotIn()], comparators=c.comparators)
+            ast.copy_location(new, node)
+            return new
+        return node
+
+
 def _negate(test: ast.expr) -> ast.expr:
     if isinstance(test, ast.UnaryOp) and isinstance(test.op, ast.Not):
         return test.operand
@@ -199,6 +275,8 @@ class _MergeIsinstance(ast.NodeTransformer):
 
 def canonicalise(tree: ast.Module) -> ast.Module:
     for _ in range(2):  # the passes enable each other (a folded loop exposes a return temp, a turned `if` an else-after-jump)
+        tree = _NegatedOperators().visit(tree)
+        tree = _InlineConditionTemp().visit(tree)
         tree = _MergeIsinstance().visit(tree)
         tree = _PositiveTests().visit(tree)
         tree = _InlineReturnTemp().visit(tree)
